@@ -1452,3 +1452,66 @@ def r_subsystem_count(ctx, f: FunctionInfo, dim_name="dim", rule="R-SHAPE", chai
            f"`{unparse(bad[0])}` counts the ROWS of a table that can have two rows (row / column dimensions): with separate row and column dimensions for n > 2 subsystems "
            "the count is 2 and valid subsystem indices are rejected or mis-permuted", bad[0] if bad else None, chain=chain)
     return 1
+
+
+# ---------------------------------------------------------------------------------------------
+_CLAMPS = {"clip", "max", "min", "maximum", "minimum", "abs", "absolute", "fmax", "fmin"}
+
+
+def r_domain_clamped(ctx, f: FunctionInfo, rule="R-GUARD", chain=None):
+    """A real square root of a DIFFERENCE of computed quantities (1 - F, a**2 - b), or an arccos / arcsin of a computed quantity, sits on
+    the boundary of its domain exactly at the extreme cases the property singles out (identical states, pure states): rounding then
+    pushes the argument outside and the result is nan.  Such an argument must pass through a clamp (np.clip / max / maximum / abs) --
+    in the expression itself or in the definition of a local it reads.  Square roots of parameters only (sqrt(1 - gamma)) and of
+    plain products are not boundary-prone here."""
+    model = ctx.model
+    params = {p.name for p in f.params}
+    defs: dict[str, list] = {}
+    for n in walk_no_nested(f.node):
+        if isinstance(n, ast.Assign) and len(n.targets) == 1 and isinstance(n.targets[0], ast.Name):
+            defs.setdefault(n.targets[0].id, []).append(n.value)
+
+    def expand(e, depth=0):
+        """the expression together with the definitions of the locals it reads (two levels)"""
+        out = [e]
+        if depth < 2:
+            for x in ast.walk(e):
+                if isinstance(x, ast.Name) and x.id in defs and x.id not in params:
+                    for d in defs[x.id]:
+                        out += expand(d, depth + 1)
+        return out
+
+    def computed(e):
+        return any(isinstance(x, ast.Call) and not (isinstance(x.func, ast.Attribute) and x.func.attr in ("sqrt", "round", "real", "float", "array")) for x in ast.walk(e))
+
+    sites, bad = 0, []
+    for c in walk_no_nested(f.node):
+        if not (isinstance(c, ast.Call) and c.args):
+            continue
+        k = model.resolve_call(f, c).key or ""
+        if k not in ("numpy.sqrt", "math.sqrt", "numpy.arccos", "numpy.arcsin", "math.acos", "math.asin"):
+            continue
+        parts = expand(c.args[0])
+        prone = False
+        if k.endswith("sqrt"):
+            for p_ in parts:
+                for x in ast.walk(p_):
+                    if isinstance(x, ast.BinOp) and isinstance(x.op, ast.Sub) and (computed(x.left) or computed(x.right) or any(isinstance(y, ast.Name) and y.id in defs for y in ast.walk(x))):
+                        # a difference whose operands come from computations (not only from parameters / constants)
+                        names = {y.id for y in ast.walk(x) if isinstance(y, ast.Name)}
+                        if computed(x) or (names - params):
+                            prone = True
+        else:
+            prone = any(computed(p_) for p_ in parts)
+        if not prone:
+            continue
+        sites += 1
+        clamped = any(isinstance(x, ast.Call) and (getattr(x.func, "attr", getattr(x.func, "id", "")) in _CLAMPS) for p_ in parts for x in ast.walk(p_))
+        if not clamped:
+            bad.append(c)
+    if sites:
+        ctx.ob(rule, f, "boundary-prone sqrt / arccos arguments are clamped to their domain", not bad,
+               f"{sites} site(s), each behind clip / max / abs" if not bad else
+               f"`{unparse(bad[0])[:80]}`: the argument is a difference (or a computed quantity) that reaches the edge of the domain exactly for identical / pure inputs; "
+               "rounding of a few ulp makes it negative (or > 1) and the result is nan", bad[0] if bad else None, chain=chain)
+    return sites
